@@ -5,23 +5,12 @@ From Verif.C17 Require Import Model.
 Import ListNotations.
 Local Open Scope Z_scope.
 
-(* ------------------------------------------------------------------ refuted regions (witnesses) *)
+(* ------------------------------------------------------------------ example states used by Properties *)
 Definition b16 : list N := map N.of_nat (seq 16 16).
 Definition num (z : Z) (d : option nat) : iarg := mkI (to_bits (of_Z z)) d.
 Definition vnum (z : Z) (d : option nat) : varg := mkV false (to_bits (of_Z z)) d.
 
 Definition st_n8 : state := mkSt [mkBuf b16 false] [mkView 0 0 2 BigInt64] [].
-
-(* C17-N10 (open): Value.Export() of a typed-array view whose buffer has been detached: goja hands out a
-   slice of the old length at the address byteOffset (a Go panic in unsafe.Slice for byteOffset 0);
-   the property asks for an empty slice *)
-Definition st_n10 : state := mkSt [mkBuf b16 true] [mkView 0 4 2 Uint16; mkView 0 0 2 Uint16] [].
-Lemma export_detached_refuted :
-  snd (fst (step MI st_n10 (OGoExport 0))) = RExp 4 2 (-1) /\
-  snd (fst (step MI st_n10 (OGoExport 1))) = RPanic /\
-  snd (fst (step MS st_n10 (OGoExport 0))) = RExp 0 0 7 /\
-  snd (fst (step MS st_n10 (OGoExport 1))) = RExp 0 0 7.
-Proof. vm_compute. repeat split; reflexivity. Qed.
 
 (* ------------------------------------------------------------------ little-endian codec *)
 Lemma le_val_le_bytes : forall n z, le_val (le_bytes n z) = z mod 2 ^ (8 * Z.of_nat n).
